@@ -28,7 +28,7 @@ ParamPoints(cls) ==
           << <<H, One>>, <<Q, Two>>, <<Z, One>> >>
     [] cls = "SmoothConvexLipschitzFunction" -> << <<One, One>>, <<Two, H>>, <<H, Two>> >>
     [] cls \in {"ConvexIndicatorFunction", "ConvexSupportFunction"} -> << <<Two>>, <<Inf>>, <<H>> >>
-    [] cls = "BlockSmoothConvexFunction" -> << <<One, Two>>, <<Two, RI(4)>>, <<H, One>> >>
+    [] cls = "BlockSmoothConvexFunction" -> << <<One, Two>>, <<One, One>>, <<H, One>> >>     \* unequal and equal block constants
     [] cls \in {"CocoerciveOperator", "NegativelyComonotoneOperator"} -> << <<One>>, <<H>>, <<Two>> >>
     [] cls = "CocoerciveStronglyMonotoneOperator" -> << <<H, One>>, <<Q, H>>, <<Z, One>> >>
     [] cls = "NonexpansiveOperator" -> << <<Z>>, <<One>>, <<One>> >>       \* P[1] # 0: a displacement vector v is set
